@@ -61,6 +61,16 @@ Theorem C11_case_invariance :
 Proof. exact fr_values_recase. Qed.
 Print Assumptions C11_case_invariance.
 
+(* and of the optional whitespace around the value / before the colon and of the line terminator: the header parser delivers
+   (name, value) for every spelling  name LWS* ":" LWS* value LWS* (CRLF | LF | nothing) *)
+Theorem C11_lws_invariance :
+  forall name value pre ows1 ows2 eol,
+    name <> [] -> forallb htp_is_token name = true -> fr_value_ok value ->
+    forallb htp_is_lws pre = true -> forallb htp_is_lws ows1 = true -> forallb htp_is_lws ows2 = true -> fr_is_eol eol = true ->
+    fr_field_of_line (name ++ pre ++ [58%N] ++ ows1 ++ value ++ ows2 ++ eol) = (name, value).
+Proof. exact fr_header_roundtrip. Qed.
+Print Assumptions C11_lws_invariance.
+
 (* the extracted oracle accepts every run of the model (it is then run on the implementation's dump) *)
 Theorem C11_checker_holds :
   forall lines t0, t_request_headers t0 = [] -> t_req_header_repetitions t0 = O -> fr_clean (t_flags t0) ->
@@ -200,6 +210,10 @@ Proof. vm_compute. reflexivity. Qed.
 Example C11_fresh_tx_premises :
   t_request_headers (tx_new 0 0) = [] /\ t_req_header_repetitions (tx_new 0 0) = O /\ t_request_hostname (tx_new 0 0) = None /\
   fr_clean (t_flags (tx_new 0 0)).
+Proof. vm_compute. repeat split; reflexivity. Qed.
+Example C11_lws_premises_nonvacuous :
+  forallb htp_is_token fr_TE = true /\ fr_value_ok fr_CHUNKED /\ fr_value_ok [] /\ forallb htp_is_lws [32; 9]%N = true /\
+  fr_is_eol [13; 10]%N = true /\ fr_is_eol [10]%N = true.
 Proof. vm_compute. repeat split; reflexivity. Qed.
 (* the header parser strips the optional whitespace: five spellings of one field give the same (name, value) *)
 Example C11_lws_examples :
